@@ -14,9 +14,10 @@
      machine, then one evaluate per output
      answer: (refused kept frozen snapshot ((value ...) ...))
        kept/frozen: one 0/1 flag per node (cell map after the trim; cells that
-       went through the freezing branch), snapshot: as in history, after the trim *)
+       went through the freezing branch), snapshot: as in history, after the trim
+   trimk: the same with Model/TrimKeep.v trim_keepref (repair 17855a0) *)
 From Coq Require Import ZArith List String Extraction ExtrOcamlBasic.
-From PV Require Import Lib.Py Extract.Sx Model.Ops Model.Graph Model.GraphExpr Model.Trim.
+From PV Require Import Lib.Py Extract.Sx Model.Ops Model.Graph Model.GraphExpr Model.Trim Model.TrimKeep.
 Import ListNotations.
 Open Scope string_scope.
 
@@ -161,7 +162,13 @@ Fixpoint run_rounds (V : workbook) (sem : nat -> list pyval -> pyval) (outs : li
 Definition flags (W : workbook) (b : nat -> bool) : sx :=
   SL (map (fun n => SZ (if b n then 1 else 0)%Z) (seq 0 (wb_n W))).
 
-Definition trim_entry (args : list sx) : sx :=
+(* [keep]: Model/TrimKeep.v trim_keepref (repair 17855a0: the reference cell of an unbounded range,
+   = a node whose formula is FAlias, is kept whenever walk_precedents walks into it) instead of
+   Model/Trim.v trim *)
+Definition is_alias (ns : list nodeinfo) (n : nat) : bool :=
+  match ni_formula (nth n ns dflt) with FAlias => true | _ => false end.
+
+Definition trim_entry_gen (keep : bool) (args : list sx) : sx :=
   match args with
   | [SL nodes; SL ops; SL ins; SL outs; SL rounds] =>
       match dec_list dec_node nodes, dec_list dec_op ops, sx_zs ins, sx_zs outs,
@@ -172,7 +179,7 @@ Definition trim_entry (args : list sx) : sx :=
           let I := map Z.to_nat ins in
           let O := map Z.to_nat outs in
           let s := fst (run W sem (init W) os) in
-          let t := trim W sem I O s in
+          let t := if keep then trim_keepref W sem (is_alias ns) I O s else trim W sem I O s in
           let V := tr_wb t in
           SL [ SZ (if refused W (st_built (build_all W sem O s)) I O then 1 else 0)%Z;
                flags W (st_built (tr_st t));
@@ -183,9 +190,11 @@ Definition trim_entry (args : list sx) : sx :=
       end
   | _ => bad_args
   end.
+Definition trim_entry := trim_entry_gen false.
+Definition trimk_entry := trim_entry_gen true.
 
 Definition table : list entry :=
-  [ E "history" history_entry; E "spec" spec_entry; E "trim" trim_entry ].
+  [ E "history" history_entry; E "spec" spec_entry; E "trim" trim_entry; E "trimk" trimk_entry ].
 
 Definition dispatch (name : list Z) (args : list sx) : sx :=
   match lookup table name with
